@@ -84,6 +84,21 @@ def check_protocol(ck, R):
         okp = set(reads) <= pattrs
         ck.ob(R, fa.key(iso[0], "stored-form-parent"), okp, "a partition read back from the store serves as parent through %s" % reads if okp else
               "the stored-form parent branch reads %s, not all declared by PicklePartition" % reads, fa.where(iso[0]))
+    # the stored form re-stored (a function returning the partition another function returned):
+    # list_keys(_include_merge_parent=False) drops its inherited entries, so they must be carried
+    # over from its own index
+    carried = False
+    for s_ in fa.stmts(ast.Assign):
+        if any(isinstance(t, ast.Name) and t.id == "merge_parent" for t in s_.targets) and A.norm(s_.value) == "obj":
+            g = fa.enclosing(s_, ast.If)
+            if g is not None and "isinstance(obj" in A.norm(g.test) and "PicklePartition" in A.norm(g.test):
+                carried = True
+    for lp_ in [n.ast for n in fa.cfg.nodes if n.kind == "for"]:
+        if "obj._index" in A.norm(lp_.iter) and any(isinstance(x, ast.Assign) and isinstance(x.targets[0], ast.Subscript) and A.norm(x.targets[0].value) == "index" for x in A.walk_local(lp_)):
+            carried = True
+    ck.ob(R, fa.key(None, "stored-form-restored"), carried, "a stored-form partition that is stored again carries its inherited entries over" if carried else
+          "when the object being stored is itself the stored form (a function returning a partition it got from another memento function), only "
+          "its non-inherited keys are listed and nothing copies the inherited entries of its own index: they are missing from the new entry", fa.where())
     # otherwise: I/O error (absorbed by the runner, see C08.R3)
     els = [r for r in fa.stmts(ast.Raise) if isinstance(r.exc, ast.Call) and A.call_attr(r.exc) in ("IOError", "OSError")]
     ck.ob(R, fa.key(None, "unusable-parent-signalled"), bool(els), "an unusable parent is signalled as an I/O error" if els else
